@@ -377,6 +377,14 @@ pub fn run(ctx: &mut Ctx) {
         let h = hist::rand_hist(&mut r, true);
         case(ctx, "PackageType", &h, true);
     }
+    // observe / take apart / change one thing / put together
+    let mut r = ctx.rng("c09.stale");
+    for _ in 0..ctx.share(60_000, 1_500_000) {
+        let h = hist::stale_hist(&mut r, false);
+        case(ctx, "String", &h, false);
+        let h = hist::stale_hist(&mut r, true);
+        case(ctx, "PackageType", &h, false);
+    }
 }
 
 pub fn replay(_monitor: &str, case: &Value) -> Result<Option<Fail>, String> {
